@@ -10,7 +10,7 @@ CHECKS = {
    note="Trusts the 40-line calendar oracle (self-checked on fixed dates), rustc, and that DateTime is reached through TryFrom<u32>/as_int/accessors."),
  "C20": dict(engine="base_harness", category="exploration", design="DESIGN.md §2 C20",
    technique="proptest with constructed near-face points against an f64 geometric oracle; all table triggers probed through verify_trigger",
-   text="Generated boxes/circles with player points constructed in the box frame (faces, edges, corners, oblique yaw) and every trigger of the three expansions' tables are judged against an f64 oracle of the documented definition; points within a stated float tolerance of a face are counted, not judged. Sampling, not proof: a defect confined to a region the placement classes do not reach could be missed.",
+   text="Generated boxes/circles with player points constructed in the box frame (faces, edges, corners, oblique yaw) and every trigger of the three expansions' tables (ids and shapes read from the published triggers.rs data files, not asked from the lookup: every listed id must resolve to its listed shape, unlisted ids must not) are judged against an f64 oracle of the documented definition; points within a stated float tolerance of a face are counted, not judged. Sampling, not proof: a defect confined to a region the placement classes do not reach could be missed.",
    note="Trusts the f64 oracle, the boundary tolerance 1e-4*scale, proptest's generators and shrinking."),
 }
 
@@ -19,19 +19,19 @@ CODEC_NOTE = "Trusts the independent wowm model (harness/model: parser, resolver
 CHECKS.update({
  "C01": dict(engine="codec_harness", category="exploration", design="DESIGN.md §2 C01",
    technique="model-based PBT: directed enumeration of every decision site + proptest choice tapes through an independent wowm encoder; round-trip and decoded-value oracle; isolated workers",
-   text="For every (message, expansion | login version, direction) derived from the wowm sources, canonical encodings produced by an independent model are fed to the public opcode-enum readers; the oracle demands acceptance, exact consumption, byte-identical re-encoding (compressed: same members/payload and a fixed point) and equality of decoded field values with what the model wrote. Directed enumeration visits every alternative of every control decision the encodings reveal; proptest tapes cover combinations. Sampling over values and combinations, exhaustive over single-site alternatives.",
+   text="For every (message, expansion | login version, direction) derived from the wowm sources, canonical encodings produced by an independent model are fed to the public opcode-enum readers; the oracle demands acceptance, exact consumption, byte-identical re-encoding (compressed: same members/payload and a fixed point) and equality of decoded field values with what the model wrote. Directed enumeration starts from the extremal encoding (every flag, optional member and mask bit present at once, then each enumerator under it) and visits every alternative of every control decision the encodings reveal; proptest tapes cover combinations. Sampling over values and combinations, exhaustive over single-site alternatives.",
    note=CODEC_NOTE),
  "C02": dict(engine="codec_harness", category="exploration", design="DESIGN.md §2 C02",
    technique="PBT over message values, body-length sweeps around header boundaries and proptest-generated message streams; header oracle from the protocol description; counting readers",
-   text="Checks the header every writer emits (opcode, size field, 2/3-byte form) for all encodings of the directed enumeration, sweeps body lengths around 0x7FFF / 0xFFFF / 0x7FFFFF through decode+write and direct writes, verifies reader position after Ok and after errors, and reads proptest-generated concatenations of written messages through the opcode-enum readers and the typed expect_* helpers (sync, tokio, async-std).",
+   text="Checks the header every writer emits (opcode, size field, 2/3-byte form) for all encodings of the directed enumeration, sweeps body lengths around 0x7FFF / 0xFFFF / 0x7FFFFF through decode+write, direct writes and (for lengths up to 64 KiB) the encrypting writers read back by the peer's decrypting reader, verifies reader position after Ok and after errors, and reads proptest-generated concatenations of written messages through the opcode-enum readers and the typed expect_* helpers (sync, tokio, async-std).",
    note=CODEC_NOTE + " Typed helpers are exercised for a fixed representative set of 29 message types per expansion."),
  "C03": dict(engine="codec_harness", category="fault_enumeration", design="DESIGN.md §2 C03",
    technique="structured fault injection from the model's trace + random frames (proptest), each case in an isolated worker process under RLIMIT_AS and a watchdog",
-   text="Every message's valid encodings are corrupted field by field (truncations, count/length/size extremes, out-of-range enum/bool/flag/mask/date patterns, string damage, inconsistent headers, zlib damage and bombs) and fed, with random bodies, an exhaustive per-endpoint header sweep (every small / boundary size in the 2-byte and 3-byte form x defined / undefined opcode x tails x truncations) and raw byte strings, to the public readers inside worker processes limited to 1 GiB beyond their idle footprint; any panic, abort, allocation failure or stack overflow is a violation, a watchdog hit is inconclusive.",
+   text="Every message's valid encodings are corrupted field by field (truncations, count/length/size extremes, out-of-range enum/bool/flag/mask/date patterns, string damage, inconsistent headers, zlib damage and bombs) and fed, with random bodies, an exhaustive per-endpoint header sweep (every small / boundary size in the 2-byte and 3-byte form x defined / undefined opcode x tails x truncations) and raw byte strings, to the public readers (800 / 8000 directed encodings per message in the quick / thorough tier) inside worker processes limited to 1 GiB beyond their idle footprint; any panic, abort, allocation failure or stack overflow is a violation, a watchdog hit is inconclusive.",
    note=CODEC_NOTE + " Overflow checks are on in the harness build. Hangs shorter than the watchdog and memory growth below the budget are not detected."),
  "C04": dict(engine="codec_harness", category="fault_enumeration", design="DESIGN.md §2 C04",
    technique="enumeration of fault sites from the wowm model (every enum leaf x undeclared values incl. width aliases; every constant-size message x every wrong length; exhaustive opcode space) with a metamorphic oracle",
-   text="Each enum-typed leaf of every message is given undeclared values at its full wire width (neighbours, extremes, gaps, aliases modulo 2^8/2^16/2^24) and the decoder must return the Enum error reporting exactly that number; every constant-sized message is given every other body length up to size+4 and must be rejected; all 2^16 (server, client) and sampled 32-bit (client) and all 256 (login) opcodes the model does not define must give the unknown-opcode error with that number, defined ones must not.",
+   text="Each enum-typed leaf of every message is given undeclared values at its full wire width (neighbours, extremes, gaps, aliases modulo 2^8/2^16/2^24, and once per message and enum every undeclared number in and 16 around the declared range plus the decimal/hexadecimal confusions of each declared value) and the decoder must return the Enum error reporting exactly that number; every constant-sized message is given every other body length up to size+4 and must be rejected; all 2^16 (server, client) and sampled 32-bit (client) and all 256 (login) opcodes the model does not define must give the unknown-opcode error with that number, defined ones must not.",
    note=CODEC_NOTE + " Enum leaves inside compressed regions are not mutated (counted in the evidence)."),
 })
 
